@@ -810,61 +810,97 @@ def check_forward(ck, f, rec, dup):
           nontrivial=False)
 
 
-# ------------------------------------------------------------------ iterator steps: twins must agree
-def step_summary(fn):
-    def atomize(n, run):
-        n = strip_casts(n)
-        if n["k"] == "BinaryOperator" and n.get("op") in ("<", ">", "<=", ">=", "==", "!="):
-            return canon(n), False
-        return None
-
-    def canon(n):
-        s = dtable.describe(n)
-        return s.replace("1U", "1")
-    leaves = dtable.explore(fn.body, atomize, fn)
-    out = set()
-    for lf in leaves:
-        effs = tuple(canon(e[1]) for e in lf["events"] if e[0] == "expr")
-        out.add((tuple(sorted(lf["val"].items())), effs))
-    return out
-
-
+# ------------------------------------------------------------------ iterator steps, decided semantically
 def check_iter_steps(ck, tree):
-    groups = {}
-    for cls, fam in (("iterator", "fwd"), ("const_iterator", "fwd"), ("reverse_iterator", "rev"), ("const_reverse_iterator", "rev")):
+    """every ++/-- of the four iterator classes is executed abstractly on a chain of three leaves (the neighbours may be
+    missing) for every position; the result must denote the neighbouring element of the global sequence in canonical form
+    (forward: slot < slotuse except end() = (tail, slotuse); reverse: slot >= 1 except rend() = (head, 0))"""
+    from engine import absexec
+    for cls, fwd in (("iterator", True), ("const_iterator", True), ("reverse_iterator", False), ("const_reverse_iterator", False)):
         for op in ("operator++", "operator--"):
-            for fn in tree.find(op, BT + "::" + cls):
-                groups.setdefault((fam, op), []).append((cls, "post" if fn.params else "pre", fn))
-    for (fam, op), members in sorted(groups.items()):
-        if len(members) < 4:
-            raise ir.AnalysisBroken("iterator %s %s: only %d of 4 twins instantiated" % (fam, op, len(members)))
-        sums = [(cls, form, fn, step_summary(fn)) for cls, form, fn in members]
-        # majority = reference (4 twins; a single deviating twin is reported)
-        ref = max(sums, key=lambda s: sum(1 for t in sums if t[3] == s[3]))[3]
-        for cls, form, fn, s in sums:
-            if s != ref:
-                diff = sorted(s ^ ref)[0]
-                ck.violation("ITER-STEP-TWINS", fn.qname, "%s:%s:%s" % (cls, op, form),
-                             "%s %s of %s steps differently from its twins: under {%s} it does %s"
-                             % (form, op, cls, ", ".join("%s=%s" % kv for kv in diff[0]), list(diff[1]) or "nothing"), fn.loc)
-            else:
-                # pre returns *this, post returns the copy taken before stepping
-                rets = [n for n in walk(fn.body) if n["k"] == "ReturnStmt"]
+            fns = tree.find(op, BT + "::" + cls)
+            if len(fns) != 2:
+                raise ir.AnalysisBroken("%s::%s: expected the pre and the post form, found %d" % (cls, op, len(fns)))
+            for fn in fns:
+                form = "post" if fn.params else "pre"
+                problem, n = None, 0
+                for has_prev in (False, True):
+                    for has_next in (False, True):
+                        for u in (1, 2, 3):
+                            for s in range(0, u + 1):
+                                if problem:
+                                    continue
+                                P = absexec.Node("prev", "leaf", 4, 2) if has_prev else None
+                                C = absexec.Node("curr", "leaf", 4, u)
+                                N = absexec.Node("next", "leaf", 4, 2) if has_next else None
+                                C.prev_leaf, C.next_leaf = P, N
+                                if P:
+                                    P.next_leaf = C
+                                if N:
+                                    N.prev_leaf = C
+                                chain = [x for x in (P, C, N) if x]
+                                offs = {}
+                                tot = 0
+                                for x in chain:
+                                    offs[id(x)] = tot
+                                    tot += x.slotuse
+                                head, tail = chain[0], chain[-1]
+
+                                def index_of(leaf, slot):
+                                    """global element index denoted by a canonical position, None if not canonical"""
+                                    if fwd:
+                                        if slot < leaf.slotuse:
+                                            return offs[id(leaf)] + slot
+                                        return tot if (leaf is tail and slot == leaf.slotuse) else None
+                                    if slot >= 1 and slot <= leaf.slotuse:
+                                        return offs[id(leaf)] + slot - 1
+                                    return -1 if (leaf is head and slot == 0) else None
+                                start = index_of(C, s)
+                                if start is None:
+                                    continue          # not a position an iterator can hold
+                                forward_move = (op == "operator++") == fwd
+                                want = start + (1 if forward_move else -1)
+                                # stepping past the ends is outside the contract (as for the std containers)
+                                if want < (0 if fwd else -1) or want > (tot if fwd else tot - 1):
+                                    continue
+                                n += 1
+                                ex = absexec.Exec(fn, {"leaf": 4, "inner": 4})
+                                ex.this.update(curr_leaf=C, curr_slot=s)
+                                for prm in fn.params:
+                                    ex.env[prm["did"]] = 0
+                                try:
+                                    ex.run(kids(fn.body))
+                                except absexec.Problem as pr:
+                                    problem = str(pr)
+                                    continue
+                                leaf2, slot2 = ex.this.get("curr_leaf"), ex.this.get("curr_slot")
+                                got = index_of(leaf2, slot2) if isinstance(leaf2, absexec.Node) else None
+                                if got != want:
+                                    problem = ("from (%s leaf with %d entries, slot %d)%s%s the iterator goes to (%s, slot %s), which %s; it must denote the %s element"
+                                               % ("the", u, s, " with a predecessor leaf" if has_prev else "", " with a successor leaf" if has_next else "",
+                                                  getattr(leaf2, "name", leaf2), slot2,
+                                                  "is not a valid position" if got is None else "is element %d instead of %d" % (got, want),
+                                                  "next" if forward_move else "previous"))
+                # return value: pre returns *this, post the copy taken before the step
+                rets = [x for x in walk(fn.body) if x["k"] == "ReturnStmt"]
                 r = strip_casts(kids(rets[0])[0]) if rets and kids(rets[0]) else None
-                good = r is not None
-                if form == "pre":
-                    d = match.deref_of(r)
-                    good = d is not None and strip_casts(d)["k"] == "This"
+                if not problem:
+                    if form == "pre":
+                        d = match.deref_of(r) if r is not None else None
+                        if d is None or strip_casts(d)["k"] != "This":
+                            problem = "the pre form must return *this"
+                    else:
+                        rr = match.strip_conv(r) if r is not None else None
+                        tmp = ref_of(rr) if rr is not None else None
+                        decl = [x for x in walk(fn.body) if x["k"] == "VarDecl" and x.get("did") == tmp]
+                        first_stmt = kids(fn.body)[0] if kids(fn.body) else None
+                        if not decl or first_stmt is None or not any(x is decl[0] for x in walk(first_stmt)):
+                            problem = "the post form must return the copy taken before the step"
+                if problem:
+                    ck.violation("ITER-STEP", fn.qname, "%s:%s:%s" % (cls, op, form), "%s %s of %s: %s" % (form, op, cls, problem), fn.loc)
                 else:
-                    rr = match.strip_conv(r)
-                    tmp = ref_of(rr)
-                    decl = [n for n in walk(fn.body) if n["k"] == "VarDecl" and n.get("did") == tmp]
-                    good = bool(decl) and kids(kids(fn.body)[0])[0] is decl[0]
-                if not good:
-                    ck.violation("ITER-STEP-TWINS", fn.qname, "%s:%s:%s:return" % (cls, op, form),
-                                 "%s %s must return %s" % (form, op, "*this" if form == "pre" else "the copy taken before the step"), fn.loc)
-                else:
-                    ck.ok("ITER-STEP-TWINS", tree.where(fn, form), "%d paths agree with the %d twins" % (len(s), len(sums) - 1))
+                    ck.ok("ITER-STEP", tree.where(fn, form), "%d positions x neighbour configurations: moves to the adjacent element in canonical form" % n)
+                    ck.states += n
 
 
 # ------------------------------------------------------------------ driver
@@ -878,7 +914,7 @@ def run(ck):
         "consistent underflow situation (null/few neighbours, same/different parents) must be resolved by exactly one legal merge or shift with "
         "the separator slot of the side used; is_full/is_few/is_underflow must fit the node's own capacity (leaf and inner chosen independently); "
         "the four front ends select the right Duplicates flag and key extractor and forward every member in order; the 16 iterator step "
-        "functions agree with their twins. Returned iterator positions, contents after histories, bulk-load shape and copies are not decided.")
+        "functions move to the adjacent element of the leaf chain in canonical form (abstract execution on a three-leaf chain). Returned iterator positions, contents after histories, bulk-load shape and copies are not decided.")
     ck.assumptions += [
         "B+ tree shape facts used to prune impossible underflow situations: the root is the only node without neighbours; the outermost node of "
         "a level has a null neighbour whose parent pointer differs from its own parent; every inner node has at least two children",
@@ -920,6 +956,6 @@ def run(ck):
     ck.floor("INSERT-EFFECT", m)            # leaf and inner level per small_traits tree
     ck.floor("ERASE-EFFECT", 2 * m)
     ck.floor("BULK-LOAD-SHAPE", m // 2)      # two per small_traits tree, half of the trees
-    ck.floor("ITER-STEP-TWINS", 16 * m)
+    ck.floor("ITER-STEP", 16 * m)
     ck.floor("FRONTEND-FLAGS", 12 * (m // 8))
     ck.floor("FRONTEND-FORWARD", 4 * 40 * (m // 8))
